@@ -41,6 +41,7 @@ def run(chk):
     )
     chk.not_decided = "the numeric bound `timeout + rounding`; absence of residual tasks at quiescence in every schedule."
     chk.explanation += " Also decided: one ceil_timeout(timeout.connect) scope instance covers both the pool wait and the connection attempt; a leaving requester never cancels the shared DNS lookup. After the defect hunt: the read timer is armed while waiting for 100 Continue and re-armed after interim responses; a cancelled upload aborts the transport; the shared drain waiter is shielded; the proxy CONNECT exchange is under sock_connect."
+    chk.explanation += " Round 4 / second hunt: the re-arm of the read timer requires an incomplete response; every await of a waiter future in StreamReader is under the timer; the wait for 100 Continue has its own bound; ResponseHandler.close() aborts when unsent bytes remain; _request() closes a started response it does not return; the waiter search covers all queues."
     # ---- scope.sock ---------------------------------------------------------------------------------------------
     n = 0
     for q, pats in (("TCPConnector._wrap_create_connection", ("aiohappyeyeballs.start_connection(...)", "create_connection(self._loop, ...)")),
